@@ -64,17 +64,19 @@ def evalLayout (cfg : Cfg) (es : InEdges) (obs : Json) (heavy : Bool := true) : 
   v := v.addAll "C02" [("nodes", c02_nodes es o), ("no-helpers", c02_noHelpers cfg o), ("edges", c02_edges es o),
                        ("sizes", c02_sizes cfg o), ("self-loops-unrouted", c02_selfLoops o)]
   let acyc := isAcyclicInput es
-  if cfg.ls > 0 then
+  if cfg.p4 == 5 then v := v.skip "C03" "PositioningNoop"
+  else if cfg.ls > 0 then
     v := v.addAll "C03" [("bands", c03_bands cfg o), ("edges-between-bands-and-flags", c03_edges o acyc)]
   else v := v.skip "C03" "LayerSpacing=0"
   if cfg.p4 ≤ 3 then
     v := v.addAll "C04" [("nonneg", c04_nonneg o), ("separation", c04_sep cfg o)]
     v := v.add "C09side" (c09_sideBySide cfg o) "components-not-side-by-side"
   else v := v.skip "C04" "BrandesKoepf"
-  if routed then v := v.add "C05" (c05 o) "endpoints-or-arrowhead"
+  if cfg.p4 == 5 then v := v.skip "C05" "PositioningNoop"
+  else if routed then v := v.add "C05" (c05 o) "endpoints-or-arrowhead"
   else v := v.skip "C05" "no routing"
   -- C06 presupposes the band structure of C03
-  match cfg.p5 with
+  match (if cfg.p4 == 5 then 9 else cfg.p5) with
   | 1 => v := v.add "C06" (c06_straight o) "straight-two-points"
   | 0 =>
     if cfg.p4 ≤ 3 then
